@@ -70,6 +70,14 @@ func countNums(thorough bool) []cty.Value {
 	return out
 }
 
+// intEdgeNums: whole numbers at the edges of the Go integer types, for count / index / size
+// parameters of functions whose work does not grow with the argument (index arithmetic on such
+// arguments can overflow).
+func intEdgeNums() []cty.Value {
+	return []cty.Value{cty.NumberIntVal(math.MaxInt64), cty.NumberIntVal(math.MaxInt64 - 1), cty.NumberIntVal(math.MinInt64), cty.NumberIntVal(math.MinInt64 + 1),
+		cty.NumberIntVal(math.MaxInt32), cty.NumberIntVal(math.MaxInt32 + 1), cty.NumberIntVal(math.MinInt32), cty.NumberUIntVal(math.MaxUint64)}
+}
+
 // deepDict selects the largest alphabets (thorough tier of the reference
 // checks C13/C14, which are cheap per case).
 var deepDict = false
@@ -265,7 +273,7 @@ func init() {
 		if pos == 0 {
 			return nil
 		}
-		return cat(nv(0, 1, 2, 3, 4, 5, -1, 0.5), []cty.Value{cty.NumberUIntVal(1 << 63), cty.PositiveInfinity})
+		return cat(nv(0, 1, 2, 3, 4, 5, -1, 0.5), []cty.Value{cty.NumberUIntVal(1 << 63), cty.PositiveInfinity}, intEdgeNums())
 	})
 	// collection
 	keyDict := cat(nv(0, 1, 2, -1, 0.5), sv("k1", "k2", "zz", "e\u0301", "a"), []cty.Value{cty.True, cty.NumberUIntVal(1 << 63)})
@@ -282,12 +290,22 @@ func init() {
 		return nil
 	})
 	add("length", stdlib.LengthFunc, nil)
-	add("element", stdlib.ElementFunc, nil)
+	add("element", stdlib.ElementFunc, func(pos int, th bool) []cty.Value {
+		if pos == 1 {
+			return cat(countNums(th), intEdgeNums())
+		}
+		return nil
+	})
 	add("coalescelist", stdlib.CoalesceListFunc, nil)
 	add("compact", stdlib.CompactFunc, nil)
 	add("contains", stdlib.ContainsFunc, nil)
 	add("distinct", stdlib.DistinctFunc, nil)
-	add("chunklist", stdlib.ChunklistFunc, nil)
+	add("chunklist", stdlib.ChunklistFunc, func(pos int, th bool) []cty.Value {
+		if pos == 1 {
+			return cat(countNums(th), intEdgeNums())
+		}
+		return nil
+	})
 	add("flatten", stdlib.FlattenFunc, func(pos int, th bool) []cty.Value {
 		// the generic sequences plus sequences whose members are maps / objects (kept whole) next to lists (unwrapped)
 		return cat(dynDict(th), []cty.Value{
@@ -344,7 +362,7 @@ func init() {
 			}
 			return out
 		}
-		return cat(nv(0, 1, 2, 3, 4, -1, 0.5), []cty.Value{cty.NumberUIntVal(1 << 63), cty.PositiveInfinity})
+		return cat(nv(0, 1, 2, 3, 4, -1, 0.5), []cty.Value{cty.NumberUIntVal(1 << 63), cty.PositiveInfinity}, intEdgeNums())
 	})
 	add("values", stdlib.ValuesFunc, nil)
 	add("zipmap", stdlib.ZipmapFunc, func(pos int, th bool) []cty.Value {
@@ -550,7 +568,7 @@ func init() {
 		if th {
 			out = append(out, nv(3, 4, -3, -5, -6, 100)...)
 		}
-		return out
+		return cat(out, intEdgeNums())
 	})
 	add("join", stdlib.JoinFunc, func(pos int, th bool) []cty.Value {
 		if pos == 0 {
